@@ -504,7 +504,7 @@ func init() {
 	fw.Register(&fw.Check{
 		ID:    "C18",
 		Level: "model_checking",
-		Rule: "(1) every argument vector of length <=L (quick 3, thorough 4) over a 26-symbol alphabet (short, long and clustered flags, --bdump/--bload with and without =BFILE, --, -, file names, unknown and malformed flags, -h) is fed to the real parseArgs (compiled from the working tree with a stdin/stdout server added by build overlay) and compared with a reference argument parser written from the usage text; " +
+		Rule: "(1) every argument vector of length <=L (quick 4, thorough 5) over a 26-symbol alphabet (short, long and clustered flags, --bdump/--bload with and without =BFILE, --, -, file names, unknown and malformed flags, -h) is fed to the real parseArgs (compiled from the working tree with a stdin/stdout server added by build overlay) and compared with a reference argument parser written from the usage text; " +
 			"(2) the real binary is executed for every subset of {d,t,r,s} x every permutation of the flags around the file argument, every clustering, the long spellings and `--`, x program classes {succeeds, parse error, runtime error, empty} x file given by name / as '-' / omitted: stdout must equal what the library prints with the same options, exit status 0/1/2, diagnostics on stderr; usage errors, missing file, directory, and --bdump followed by --bload (3 spellings x 5 flag sets).",
 		Subs:           []*fw.Sub{subC18Argv, subC18Run, subC18Misc},
 		BudgetQuick:    100,
@@ -547,9 +547,9 @@ func init() {
 				c.Do(subC18Misc, &c18Misc{Name: u})
 			}
 			// level 1
-			L := 3
+			L := 4
 			if c.Thorough() {
-				L = 4
+				L = 5
 			}
 			if _, err := os.Stat(argvServerBin()); err != nil {
 				c.Infra("argument-server binary missing (overlay build of cmd/bcl failed): %s", argvServerBin())
